@@ -1,4 +1,4 @@
-"""reseed.py: apply every stored seeded change to /repo in turn, run the quick check of its property, undo; results -> seeded/rerun_final.json.
+"""reseed.py: apply every stored seeded change to /repo in turn, run the quick check of its property, undo; results -> seeded/rerun_final.json (with property ids as arguments: only the seeds of those properties -> seeded/rerun_<ids>.json).
 Never run while anything else uses /repo."""
 import json, os, subprocess, sys
 env = dict(os.environ, CARGO_NET_OFFLINE="true")
@@ -6,12 +6,15 @@ def sh(cmd, cwd=None, timeout=3000):
     return subprocess.run(cmd, shell=True, cwd=cwd, env=env, stdout=subprocess.PIPE, stderr=subprocess.STDOUT, text=True, timeout=timeout)
 assert sh("git -C /repo status --short").stdout.strip() == ""
 out = {}
+ONLY = set(sys.argv[1:])
 for name in sorted(os.listdir("/verif/seeded")):
     d = os.path.join("/verif/seeded", name)
     if not os.path.isdir(d):
         continue
     meta = json.load(open(os.path.join(d, "meta.json")))
     checks = list(meta.get("checks_run", {}).keys()) or [meta["property"]]
+    if ONLY and not (set(checks) & ONLY):
+        continue
     a = sh("git -C /repo apply --whitespace=nowarn %s" % os.path.join(d, "patch.diff"))
     rec = {"applies": a.returncode == 0, "detected": {}}
     try:
@@ -24,6 +27,6 @@ for name in sorted(os.listdir("/verif/seeded")):
         sh("git -C /repo checkout -- .")
     out[name] = rec
     print(name, json.dumps(rec), flush=True)
-json.dump(out, open("/verif/seeded/rerun_final.json", "w"), indent=1)
+json.dump(out, open("/verif/seeded/rerun_%s.json" % ("_".join(sorted(ONLY)) if ONLY else "final"), "w"), indent=1)
 assert sh("git -C /repo status --short").stdout.strip() == ""
 print("DONE")
